@@ -32,6 +32,11 @@ func (f F) CDF(x float64) float64 {
 	if x <= 0 {
 		return 0
 	}
+	if f.D1*x > f.D2 {
+		// The argument d1*x/(d1*x+d2) approaches 1 and cannot resolve
+		// the upper tail; use the complementary form.
+		return 1 - mathext.RegIncBeta(f.D2/2, f.D1/2, f.D2/(f.D1*x+f.D2))
+	}
 	return mathext.RegIncBeta(f.D1/2, f.D2/2, f.D1*x/(f.D1*x+f.D2))
 }
 
@@ -99,6 +104,11 @@ func (f F) Quantile(p float64) float64 {
 	if p < 0 || p > 1 {
 		panic(badPercentile)
 	}
+	if p > 0.5 {
+		// Invert the complementary form to keep the upper tail resolved.
+		y := mathext.InvRegIncBeta(0.5*f.D2, 0.5*f.D1, 1-p)
+		return f.D2 * (1 - y) / (f.D1 * y)
+	}
 	y := mathext.InvRegIncBeta(0.5*f.D1, 0.5*f.D2, p)
 	return f.D2 * y / (f.D1 * (1 - y))
 }
@@ -137,7 +147,10 @@ func (f F) Survival(x float64) float64 {
 	if x <= 0 {
 		return 1
 	}
-	return 1 - f.CDF(x)
+	if f.D1*x > f.D2 {
+		return mathext.RegIncBeta(f.D2/2, f.D1/2, f.D2/(f.D1*x+f.D2))
+	}
+	return 1 - mathext.RegIncBeta(f.D1/2, f.D2/2, f.D1*x/(f.D1*x+f.D2))
 }
 
 // Variance returns the variance of the probability distribution.
